@@ -326,8 +326,16 @@ func BuildCte(query *Query, expr *sqlparser.With) error {
 	}
 	for _, cte := range expr.CTEs {
 		copy := *cte
-		evaluating := false
+		evaluating, evaluated := false, false
+		var rows any
 		query.data[copy.ID.String()] = CteEvaluation(func() (any, error) {
+			// evaluated once: later reads get the rows. They are kept here and not
+			// written into the scope: that map is also the row of `FROM dual` and
+			// the `<-` of every row - calls still running may be reading it - and
+			// a body with a WITH of its own works on a copy of it
+			if evaluated {
+				return rows, nil
+			}
 			// a CTE that (directly or through other CTEs) selects from itself
 			// would recurse until the stack overflows
 			if evaluating {
@@ -343,11 +351,7 @@ func BuildCte(query *Query, expr *sqlparser.With) error {
 			if err != nil {
 				return nil, err
 			}
-			// evaluated once: later reads get the rows. The entry stays a CTE
-			// entry - `*` over dual does not list CTEs, evaluated or not
-			query.data[copy.ID.String()] = CteEvaluation(func() (any, error) {
-				return rs, nil
-			})
+			rows, evaluated = rs, true
 			return rs, nil
 		})
 	}
